@@ -1,5 +1,7 @@
 import GoPlugin.Model.Handshake
+import GoPlugin.Model.Negotiate
 /- REGENERATED from the go-plugin source on every run by /verif/extract — do not edit. -/
 namespace GoPlugin.Facts
 def handshake : Handshake.Params := ⟨true, true, 4, 50, 1⟩
+def negotiate : Negotiate.Params := ⟨true, true, true, true⟩
 end GoPlugin.Facts
